@@ -75,6 +75,11 @@ pub fn verify_chunk(store: &TensorStore, chunk_key: &str) -> Result<bool> {
 pub fn repair(store: &TensorStore) -> Result<RepairStats> {
     let mut stats = RepairStats::default();
 
+    // No upload may turn into a finished artifact between steps 1 and 2
+    let _gate = crate::gc::recount_gate()
+        .write()
+        .unwrap_or_else(std::sync::PoisonError::into_inner);
+
     // 1. Build true reference counts from all artifacts
     let mut true_refs: std::collections::HashMap<String, i64> = std::collections::HashMap::new();
 
@@ -96,9 +101,21 @@ pub fn repair(store: &TensorStore) -> Result<RepairStats> {
     for chunk_key in store.scan("_blob:chunk:") {
         stats.chunks_verified += 1;
 
+        // An upload in progress holds references that no artifact lists yet
+        let _guard = crate::gc::lock_chunk(&chunk_key);
+        let pending = i64::try_from(crate::gc::pending_count(
+            crate::gc::store_id(store),
+            &chunk_key,
+        ))
+        .unwrap_or(i64::MAX);
+
         if let Ok(mut tensor) = store.get(&chunk_key) {
             let current_refs = get_int(&tensor, "_refs").unwrap_or(0);
-            let expected_refs = true_refs.get(&chunk_key).copied().unwrap_or(0);
+            let expected_refs = true_refs
+                .get(&chunk_key)
+                .copied()
+                .unwrap_or(0)
+                .saturating_add(pending);
 
             if current_refs != expected_refs {
                 tensor.set(
